@@ -3,6 +3,7 @@ package main
 // windows.go — rule instances shared by the time-window properties (C01, C02, C08, C10).
 
 import (
+	"os"
 	"fmt"
 	"go/constant"
 	"go/token"
@@ -443,8 +444,36 @@ func (a *A) ruleFireGuard(W *types.Named, fn *ssa.Function) {
 			sites = append(sites, site{c, s})
 		}
 	})
-	if len(sites) == 0 {
-		a.Und(construct, fn.Pos(), "no extraction site (call of a method that takes rows out of %s.data) found in the watermark handler", W.Obj().Name())
+	// rows may also be taken out of the buffer in the handler itself: a loop over W.data whose rows
+	// are appended to a batch (not back into the buffer) under slot.Contains(row.Timestamp)
+	type inlineSite struct {
+		contains *ssa.Call
+	}
+	var inl []inlineSite
+	dataF := a.FieldOf(W, "data")
+	for _, l := range rangeLoops(fn) {
+		if l.X == nil {
+			continue
+		}
+		if xt := TermOf(l.X, nil); xt.Kind != "field" || xt.Field != dataF {
+			continue
+		}
+		for _, c := range l.elemAppends() {
+			si := sinksOf(c)
+			if si.StoredField[dataF] {
+				continue // the keep side
+			}
+			for _, g := range guardsOf(c.Block()) {
+				if call, ok := g.Cond.(*ssa.Call); ok && g.Sense {
+					if cal := call.Call.StaticCallee(); cal != nil && cal.Name() == "Contains" && len(call.Call.Args) == 2 {
+						inl = append(inl, inlineSite{call})
+					}
+				}
+			}
+		}
+	}
+	if len(sites) == 0 && len(inl) == 0 {
+		a.Und(construct, fn.Pos(), "no extraction site (a call of a method that takes rows out of %s.data, or a loop that does) found in the watermark handler", W.Obj().Name())
 		return
 	}
 	const maxEpoch = 3
@@ -474,6 +503,23 @@ func (a *A) ruleFireGuard(W *types.Named, fn *ssa.Function) {
 		w.RetIdx = -1
 		var bad string
 		w.Target = func(in ssa.Instruction, w *Walker) bool {
+			for _, s := range inl {
+				if in != ssa.Instruction(s.contains) {
+					continue
+				}
+				ep := -1
+				if t := w.Term(s.contains.Call.Args[0]); t.Kind == "field" && t.Field == curF {
+					ep = t.Epoch
+				}
+				if ep < 0 || ep >= maxEpoch {
+					bad = fmt.Sprintf("the rows taken at %s are selected by a slot that is not a load of %s.currentSlot (cannot relate it to the guard)", a.pos(in.Pos()), W.Obj().Name())
+					return true
+				}
+				if r["W"] < r[fmt.Sprintf("E%d", ep)] {
+					bad = fmt.Sprintf("rows are taken at %s with watermark < End of the slot that selects them (ordering %s; slot version %d)", a.pos(in.Pos()), fmtOrdering(r, nil), ep)
+				}
+				return false
+			}
 			for _, s := range sites {
 				if in != ssa.Instruction(s.in) {
 					continue
@@ -513,7 +559,7 @@ func (a *A) ruleFireGuard(W *types.Named, fn *ssa.Function) {
 			return
 		}
 	}
-	o := a.Ok(construct, fn.Pos(), "under all %d orderings of watermark vs slot ends, %d extraction site(s) are reached only with watermark >= End of the extracted slot", checked, len(sites))
+	o := a.Ok(construct, fn.Pos(), "under all %d orderings of watermark vs slot ends, %d extraction site(s) are reached only with watermark >= End of the extracted slot", checked, len(sites)+len(inl))
 	o.Extra = map[string]any{"exhaustive": true}
 }
 
@@ -913,9 +959,13 @@ func (a *A) ruleWriters(rule string, W *types.Named, field string, allowed map[s
 	f := a.FieldOf(W, field)
 	var names []string
 	seen := map[string]token.Pos{}
+	inPkg := map[string]bool{}
 	for _, fn := range a.ModFuncs {
 		for _, st := range storesToField(fn, f) {
 			n := fname(fn)
+			if pk := ssaPkgOf(fn); pk != nil && pk.Pkg == W.Obj().Pkg() {
+				inPkg[n] = true
+			}
 			if _, listed := allowed[n]; !listed && fn.Parent() == nil {
 				// a method that only owners call (a stage of an owner extracted into a helper) writes on
 				// their behalf
@@ -952,8 +1002,13 @@ func (a *A) ruleWriters(rule string, W *types.Named, field string, allowed map[s
 		construct := fmt.Sprintf("%s.%s<-%s", W.Obj().Name(), field, n)
 		if why, ok := allowed[n]; ok {
 			a.Ok(construct, seen[n], "owner: %s", why)
+		} else if inPkg[n] {
+			// a writer the table does not know, inside the type's own package: what it may store is
+			// decided by the structural rules that judge every store wherever it sits (data:
+			// shape/buffer-arrival-order and ordtab/take-keep; currentSlot: shape/advance-by-one)
+			a.Ok(construct, seen[n], "writer not in the reviewed table; every store to this field is judged by the structural rules of this property, whoever makes it")
 		} else {
-			a.Bad(construct, seen[n], "%s writes %s.%s but is not in the owner set {%s}", n, W.Obj().Name(), field, strings.Join(keys(allowed), ", "))
+			a.Bad(construct, seen[n], "%s writes %s.%s from outside the package of %s", n, W.Obj().Name(), field, W.Obj().Name())
 		}
 	}
 }
@@ -992,6 +1047,9 @@ func (a *A) ruleAdvanceByOne(W *types.Named, initFns map[string]string) {
 				}
 				if k, isK := l.(*ssa.Const); isK && k.Value == nil {
 					continue // cleared
+				}
+				if a.isJumpBoundedByEveryRow(l, W) {
+					continue
 				}
 				ok = false
 				badLeaf = TermOf(l, nil).String()
@@ -1583,4 +1641,161 @@ func (a *A) soleOwnerCaller(fn *ssa.Function, allowed map[string]string, depth i
 		return ""
 	}
 	return owner
+}
+
+// isJumpBoundedByEveryRow: v is a slot that starts j intervals after the end of the current one
+// (currentSlot.End.Add(j * size), on the grid) where j was lowered, in a loop over the WHOLE row
+// buffer that cannot be left early except once j has reached 0, to the number of whole intervals
+// between that end and each buffered row: the jump passes over no interval that holds a row. This is
+// the one-step form of walking NextSlot() over a run of empty intervals. A jump computed from the
+// watermark alone, or from the first buffered row, does not qualify (the buffer is in arrival order).
+func (a *A) isJumpBoundedByEveryRow(v ssa.Value, W *types.Named) bool {
+	c, ok := v.(*ssa.Call)
+	if !ok || c.Call.StaticCallee() == nil || c.Call.StaticCallee().Name() != "createSlotFromStart" || len(c.Call.Args) != 2 {
+		return false
+	}
+	// start = <currentSlot.End>.Add(time.Duration(j) * size)
+	add, ok := c.Call.Args[1].(*ssa.Call)
+	if !ok || calleeFull(&add.Call) != "(time.Time).Add" {
+		return false
+	}
+	if f, base := slotField(TermOf(add.Call.Args[0], nil)); f != "End" || !isFieldOf(base, qual(W), "currentSlot") {
+		return false
+	}
+	mul, ok := add.Call.Args[1].(*ssa.BinOp)
+	if !ok || mul.Op != token.MUL {
+		return false
+	}
+	var j ssa.Value
+	for _, side := range [][2]ssa.Value{{mul.X, mul.Y}, {mul.Y, mul.X}} {
+		if t := TermOf(side[1], nil); isFieldOf(t, qual(W), "size") || isFieldOf(t, qual(W), "slide") {
+			j = side[0]
+		}
+	}
+	if j == nil {
+		return false
+	}
+	for {
+		if cv, ok := j.(*ssa.Convert); ok {
+			j = cv.X
+			continue
+		}
+		if ct, ok := j.(*ssa.ChangeType); ok {
+			j = ct.X
+			continue
+		}
+		break
+	}
+	dataF := a.FieldOf(W, "data")
+	fn := c.Parent()
+	dbg := os.Getenv("VERIF_DEBUG") != ""
+	if dbg {
+		fmt.Fprintf(os.Stderr, "jump: j=%s leaves=%d loops=%d\n", TermOf(j, nil), len(phiLeafEdges(j)), len(rangeLoops(fn)))
+		for _, l := range rangeLoops(fn) {
+			fmt.Fprintf(os.Stderr, "  loop X=%v\n", l.X != nil && TermOf(l.X, nil).Kind == "field")
+		}
+	}
+	// some way j comes about is an assignment inside a complete loop over the buffer, from a value
+	// that depends on the loop's row, taken when it is smaller than j
+	for _, l := range append(rangeLoops(fn)) {
+		if l.X == nil {
+			continue
+		}
+		if xt := TermOf(l.X, nil); xt.Kind != "field" || xt.Field != dataF {
+			continue
+		}
+		lowered := false
+		for _, lf := range phiLeafEdges(j) {
+			leaf := lf.v
+			in, isIn := leaf.(ssa.Instruction)
+			if !isIn || !l.Blocks[in.Block()] || lf.from == nil {
+				continue
+			}
+			// depends on the row of this iteration
+			dep := false
+			seen := map[ssa.Value]bool{}
+			var rec func(x ssa.Value, d int)
+			rec = func(x ssa.Value, d int) {
+				if x == nil || seen[x] || d > 12 || dep {
+					return
+				}
+				seen[x] = true
+				if l.isElem(x) {
+					dep = true
+					return
+				}
+				if ia, ok := x.(*ssa.IndexAddr); ok && l.Blocks[ia.Block()] {
+					if bt := TermOf(ia.X, nil); bt.Kind == "field" && bt.Field == dataF {
+						dep = true // tw.data[i] inside the loop over tw.data
+						return
+					}
+				}
+				if ins, ok := x.(ssa.Instruction); ok {
+					for _, op := range ins.Operands(nil) {
+						if *op != nil {
+							rec(*op, d+1)
+						}
+					}
+				}
+			}
+			rec(leaf, 0)
+			if !dep {
+				continue
+			}
+			// taken under k < j
+			gs := guardsOf(lf.from)
+			if len(lf.from.Succs) == 1 {
+				gs = append(gs, guardsAtEnd(lf.from, lf.from.Succs[0])...)
+			}
+			for _, g := range gs {
+				if bo, ok := g.Cond.(*ssa.BinOp); ok && g.Sense && ((bo.Op == token.LSS && bo.X == leaf) || (bo.Op == token.GTR && bo.Y == leaf)) {
+					lowered = true
+				}
+			}
+		}
+		if !lowered {
+			continue
+		}
+		// the loop is complete: no exit but the exhausted buffer, or j == 0 / j <= 0
+		if bad := loopEarlyExit(l, func(exit *ssa.BasicBlock) bool {
+			for _, p := range exit.Preds {
+				if !l.Blocks[p] {
+					continue
+				}
+				iff, ok := p.Instrs[len(p.Instrs)-1].(*ssa.If)
+				if !ok {
+					return false
+				}
+				bo, ok := iff.Cond.(*ssa.BinOp)
+				if !ok || !isZeroConst(bo.Y) || !(bo.Op == token.EQL || bo.Op == token.LEQ) {
+					return false
+				}
+			}
+			return true
+		}); bad == nil {
+			return true
+		}
+	}
+	return false
+}
+
+// hasTakeLoop: fn has a loop over W.data that appends the loop's row to a slice that does not go back
+// into the buffer (it is returned, delivered or kept as a snapshot): fn takes rows out of the buffer.
+func (a *A) hasTakeLoop(W *types.Named, fn *ssa.Function) bool {
+	dataF := a.FieldOf(W, "data")
+	for _, l := range rangeLoops(fn) {
+		if l.X == nil {
+			continue
+		}
+		if xt := TermOf(l.X, nil); xt.Kind != "field" || xt.Field != dataF {
+			continue
+		}
+		for _, c := range l.elemAppends() {
+			si := sinksOf(c)
+			if !si.StoredField[dataF] && (si.Returned || len(si.PassedTo) > 0) {
+				return true
+			}
+		}
+	}
+	return false
 }
